@@ -64,8 +64,8 @@ structure Discipline (fuel : Nat) : Prop where
   block : ∀ ss (σ σ' : Sys W), σ.ctx.vars.Inv → execBlock D fuel ss σ = some σ' →
     σ'.ctx.vars.Inv ∧ σ'.ctx.scopes.tail = σ.ctx.scopes.tail
   /-- a completed loop closes the scope it was entered with: what is left is exactly what lay below -/
-  loop : ∀ var n body (σ σ' : Sys W) (b : List (String × Int64)) (bs : Scopes.T Int64), σ.ctx.vars.Inv →
-    σ.ctx.scopes.tail = b :: bs → loopIter D fuel var n body σ = some σ' →
+  loop : ∀ var n body cur (σ σ' : Sys W) (b : List (String × Int64)) (bs : Scopes.T Int64), σ.ctx.vars.Inv →
+    σ.ctx.scopes.tail = b :: bs → loopIter D fuel var n body cur σ = some σ' →
     σ'.ctx.vars.Inv ∧ σ'.ctx.scopes = b :: bs
   whil : ∀ cond body (σ σ' : Sys W), σ.ctx.vars.Inv → whileIter D fuel cond body σ = some σ' →
     σ'.ctx.vars.Inv ∧ σ'.ctx.scopes.tail = σ.ctx.scopes.tail
@@ -140,7 +140,7 @@ theorem discipline (hD : D.KeepsVars) : ∀ fuel, Discipline D fuel := by
               | cons b bs => exact ⟨b, bs, rfl⟩
             have htail : (c'.pushFrame.set var 0).scopes.tail = b :: bs := by
               rw [s2, hps]; simp [Scopes.set, hb]
-            obtain ⟨i3, s3⟩ := ih.loop var n body _ σ' b bs i2 htail h
+            obtain ⟨i3, s3⟩ := ih.loop var n body 0 _ σ' b bs i2 htail h
             refine ⟨i3, ?_⟩
             rw [s3]
             have : σ.ctx.scopes = c'.scopes := by unfold Ctx.scopes; rw [hv]
@@ -162,32 +162,29 @@ theorem discipline (hD : D.KeepsVars) : ∀ fuel, Discipline D fuel := by
           obtain ⟨i2, t2⟩ := ih.block ss' σ1 σ' i1 h
           exact ⟨i2, t2.trans t1⟩
     · -- loop
-      intro var n body σ σ' b bs hinv htail h
+      intro var n body cur σ σ' b bs hinv htail h
       simp only [loopIter] at h
       split at h
       · cases h
       · next σ2 hb =>
         obtain ⟨i2, t2⟩ := ih.block body σ σ2 hinv hb
         split at h
-        · next prev hg =>
-          split at h
-          · obtain ⟨i3, s3⟩ := scopes_set σ2.ctx var (satSucc prev) i2
-            have : (σ2.ctx.set var (satSucc prev)).scopes.tail = b :: bs := by
-              rw [s3, set_tail _ _ _ (scopes_ne_nil _), t2, htail]
-            exact ih.loop var n body _ σ' b bs i3 this h
-          · cases h
-            refine ⟨FMap.inv_pop _ i2, ?_⟩
-            show σ2.ctx.popFrame.scopes = _
-            have hp : σ2.ctx.popFrame.scopes = Scopes.pop σ2.ctx.scopes := FMap.abs_pop σ2.ctx.vars
-            rw [hp]
-            have ht : σ2.ctx.scopes.tail = b :: bs := t2.trans htail
-            cases hs : σ2.ctx.scopes with
-            | nil => exact absurd hs (scopes_ne_nil _)
-            | cons t rest =>
-              rw [hs] at ht
-              simp only [List.tail_cons] at ht
-              subst ht; rfl
+        · obtain ⟨i3, s3⟩ := scopes_set σ2.ctx var (satSucc cur) i2
+          have : (σ2.ctx.set var (satSucc cur)).scopes.tail = b :: bs := by
+            rw [s3, set_tail _ _ _ (scopes_ne_nil _), t2, htail]
+          exact ih.loop var n body _ _ σ' b bs i3 this h
         · cases h
+          refine ⟨FMap.inv_pop _ i2, ?_⟩
+          show σ2.ctx.popFrame.scopes = _
+          have hp : σ2.ctx.popFrame.scopes = Scopes.pop σ2.ctx.scopes := FMap.abs_pop σ2.ctx.vars
+          rw [hp]
+          have ht : σ2.ctx.scopes.tail = b :: bs := t2.trans htail
+          cases hs : σ2.ctx.scopes with
+          | nil => exact absurd hs (scopes_ne_nil _)
+          | cons t rest =>
+            rw [hs] at ht
+            simp only [List.tail_cons] at ht
+            subst ht; rfl
     · -- while
       intro cond body σ σ' hinv h
       simp only [whileIter] at h
